@@ -344,7 +344,7 @@ impl<'a> G<'a> {
     /// an index KEY that evaluates to an existing key of `T` ("x" or 1), one shape per `Expression`
     /// variant `replace_with` classifies, written BARE (no parentheses) with an effectful operand
     fn key_variant(&mut self) -> (String, &'static str) {
-        match self.rng.below(16) {
+        match self.rng.below(17) {
             0 => ("key() :: string".to_owned(), "key-typecast"),
             1 => ("getKS().k :: any".to_owned(), "key-typecast"),
             2 => ("key() .. \"\"".to_owned(), "key-binary"),
@@ -360,6 +360,7 @@ impl<'a> G<'a> {
             12 => ("if flag1() then key() else key()".to_owned(), "key-if-expression"),
             13 => ("`x`".to_owned(), "key-interpolated"),
             14 => ("KV".to_owned(), "key-identifier"),
+            15 => ("`{key()}`".to_owned(), "key-interpolated-effect"),
             _ => ("(function() emit(\"fnkey\") return \"x\" end)()".to_owned(), "key-call-of-function"),
         }
     }
